@@ -223,7 +223,14 @@ def oracle_es_children(args):
         nsteps = int(round((snaps[-1]["time"] - snaps[0]["time"]) / args["dt"]))
         hard = nsteps >= args["maxsteps"] - 1
         was_inside = any(ins[:-1])
-        if not hard and not (was_inside and not ins[-1]):
+        evs = list(tr.hops) + list(tr.events.get("frustrated_hop", []))
+        born = max([e["time"] for e in evs], default=None)
+        if born is not None and len(evs) == 1 and snaps[-1]["time"] <= born:
+            # the (only) event of this trace is its birth; nothing was logged after it: the final state of THIS trajectory
+            # (at born + dt, on its target state) is missing and the trace ends with its parent's snapshot
+            problems.append("child born at t=%r never logged its own state: its trace ends with the parent's snapshot at t=%r on state %d"
+                            % (born, snaps[-1]["time"], snaps[-1]["active"]))
+        elif not hard and not (was_inside and not ins[-1]):
             problems.append("trace of weight %.4g ends at x=%.4f t=%.1f: no limit met (inside earlier: %s)" %
                             (tr.weight, xs[-1], snaps[-1]["time"], was_inside))
         # earlier snapshots must not already satisfy the stop rule
@@ -350,12 +357,25 @@ def run(ctx):
                 ctx.oracle_fail("run-timeline:" + cls, "run", {"spec": spec, "limits": limits}, obs, req, text)
 
     # ---------- even-sampling children ----------
-    for i in range(ctx.budget(4, 60)):
-        a = dict(model=["extended", "simple", "dual"][i % 3], x0=float(-rng.uniform(3.5, 6)), k=float(rng.uniform(8, 25)),
-                 seed=int(rng.integers(1, 10 ** 6)), dt=20.0, box=float(rng.uniform(0.8, 2.5)), maxsteps=3000,
-                 stack=[int(rng.integers(2, 4))], quadrature=str(rng.choice(["trapezoid", "gl", "midpoint"])))
+    # corpus first: a spawn on the very step at which the parent leaves the box (found by the thorough tier, seed 77)
+    corpus = [dict(model="dual", x0=-5.910094565027199, k=24.449487706745874, seed=926698, dt=20.0, box=1.6821206732895315,
+                   maxsteps=3000, stack=[3], quadrature="trapezoid")]
+    gen = [dict(model=["extended", "simple", "dual"][i % 3], x0=float(-rng.uniform(3.5, 6)), k=float(rng.uniform(8, 25)),
+                seed=int(rng.integers(1, 10 ** 6)), dt=20.0, box=float(rng.uniform(0.8, 2.5)), maxsteps=3000,
+                stack=[int(rng.integers(2, 4))], quadrature=str(rng.choice(["trapezoid", "gl", "midpoint"])))
+           for i in range(ctx.budget(4, 60))]
+    # a child born on the step at which max_steps is reached
+    for i in range(ctx.budget(3, 30)):
+        gen.append(dict(model=["simple", "dual", "extended"][i % 3], x0=-4.0, k=float(rng.uniform(10, 25)), seed=int(rng.integers(1, 10 ** 6)),
+                        dt=20.0, box=3.0, maxsteps=int(rng.integers(12, 40)), stack=[int(rng.integers(3, 7))], quadrature="midpoint"))
+    for a in corpus + gen:
         ok, obs, req, text = oracle_es_children(a)
-        ctx.case(("es-children", a["model"], a["quadrature"]))
+        ctx.case(("es-children", a["model"], a["quadrature"], a["maxsteps"] < 3000))
         ctx.count("es_batches")
         if not ok:
-            ctx.oracle_fail("es-child-inherits-parent-latch" if "no limit met" in text else "es-children", "es_children", a, obs, req, text)
+            sig = "es-children"
+            if "never logged its own state" in text:
+                sig = "es-child-born-finished-not-logged"
+            elif "no limit met" in text:
+                sig = "es-child-inherits-parent-latch"
+            ctx.oracle_fail(sig, "es_children", a, obs, req, text)
